@@ -8,6 +8,9 @@ import os
 from . import tlc
 from .common import SPEC
 
+# which "fix:" commits the current tree contains (the Impl layers are the models of THIS tree)
+FIX = dict(OptFix=True, AbsentFix=True)
+
 MODES = {"zero", "symmetric", "reflect", "periodic", "periodization"}
 
 
